@@ -19,7 +19,7 @@ epoll_create epoll_create1 epoll_ctl
 read readv write writev pread sendto recvfrom sendfile recv send
 socket socketpair bind listen accept accept4 connect shutdown close dup dup2
 fcntl ioctl getsockopt setsockopt getsockname getpeername
-pipe pipe2 eventfd signalfd open getpid""".split()
+pipe pipe2 eventfd signalfd open getpid evutil_weakrand_seed_""".split()
 
 # undefined symbols libevent may reference that are pure / harmless; anything else is reported
 PURE = set("""__ctype_b_loc __errno_location __isoc99_sscanf abort calloc exit fprintf fputc free fwrite malloc
